@@ -637,6 +637,33 @@ func checkInflate(r *Report, a *Analysis, sc *Scope, rule string) {
 					}
 				}
 				r.Check(upd, rule, fmt.Sprintf("%s: running count advanced", p.FnName(read)), p.InstrPos(in), "count += n", "the running count is never advanced, so the limit is per call only")
+				// the fixed limit is the only reason of its own for which the wrapper refuses a stream: every return that hands
+				// back an error other than the inner reader's is taken under the limit comparison (a cap that depends on the
+				// size of the compressed input refuses well-formed messages that merely compress well)
+				if okGuard {
+					for _, ret := range fc.Returns() {
+						ei := errIndex(read)
+						if ei < 0 || ei >= len(ret.Results) {
+							continue
+						}
+						ev := Resolve(ret.Results[ei])
+						if isNilConst(ev) {
+							continue
+						}
+						fromInner := false
+						for _, lf := range rootLeaves(ev, map[ssa.Value]bool{}) {
+							if ex, ok := lf.(*ssa.Extract); ok {
+								if ic, ok := ex.Tuple.(*ssa.Call); ok && ic.Call.IsInvoke() && ic.Call.Method.Name() == "Read" {
+									fromInner = true
+								}
+							}
+						}
+						if fromInner {
+							continue
+						}
+						r.Check(fc.Implied(ret.Block(), B.Var(detail)), rule, fmt.Sprintf("%s: refuses only beyond the fixed limit", p.FnName(read)), p.InstrPos(ret), "the wrapper's own error is returned under "+detail, "the bounded reader returns an error of its own on a path where the fixed 10 MiB limit is not exceeded: streams within the limit (a request of this library's SP that happens to compress well) are refused")
+					}
+				}
 			}
 		}
 		if !found {
